@@ -44,6 +44,7 @@ def check(ctx, report):
     # the number a code point is looked up with is the unsigned value of its bytes, for every width the factories use (the 3 byte
     # SSL 2.0 cipher kinds included): the width / byte order tabulation of the numeric primitives (shared with C11.R1)
     registry_names_exact(ctx, report)
+    coded_fields_kept(ctx, report)
     from .c11 import numeric_widths_shared
     numeric_widths_shared(ctx, report, 'C10.R9', 'code points are read and written as the unsigned big-endian value of their bytes, for every width')
     grease_classification(ctx, report, 'C10.R6')
@@ -108,6 +109,41 @@ def used_by_repo(model, c):
             if b[0] == 'from' and b[2] == c.name:
                 return True
     return False
+
+
+def coded_fields_kept(ctx, report, RULE='C10.R11'):
+    """A code point that is decoded and then handed to nothing is not decoded faithfully: the object carries the default member of
+    the field whatever code was on the wire.  The binding comparison of C01.R2 names such fields (a parser key that reaches no
+    argument of the constructed object while the composer writes the attribute of that position as it is); here the ones whose
+    primitive decodes into a coded enumeration are reported."""
+    from ..compare import compare_class
+    from .c01 import classify, diff_key
+    from ..values import ClassV
+    report.rule(RULE, 'a decoded code point reaches the attribute the composer writes at that position (never replaced by the default)')
+    model = ctx.model
+    n = 0
+    for c in model.concrete_parsables():
+        if classify(ctx, c) not in ('binary', 'mixed'):
+            continue
+        try:
+            cmpn = compare_class(c, ctx.canon)
+        except Exception as e:      # the layout comparison of C01 reports what it cannot derive
+            continue
+        for a, b in cmpn.pairs:
+            if a.key is None or a.op is None:
+                continue
+            coded = [v.cls for v in (a.op.args or {}).values() if isinstance(v, ClassV) and isinstance(v.cls, ClassInfo) and
+                     (v.cls.is_enum or v.cls.is_subclass_of('NByteEnumParsable') or v.cls.is_subclass_of('OpaqueEnumParsable') or
+                      v.cls.is_subclass_of('EnumParsableBase'))]
+            if coded:
+                n += 1
+        for d in cmpn.diffs:
+            if d.kind == 'binding' and 'reaches no argument' in d.detail:
+                coded = [v for v in (d.a.op.args or {}).values() if isinstance(v, ClassV)]
+                if coded:
+                    report.add(RULE, '%s@%s' % (c.construct, diff_key(d)), d.detail)
+    report.count(RULE, n)
+    report.floor(RULE, 60, 'coded fields of binary classes')
 
 
 def registry_names_exact(ctx, report, RULE='C10.R10'):
